@@ -19,6 +19,7 @@ import (
 //   - the previous output cut in half (truncated),
 //   - the (longer) output of an earlier version of the declaration (stale),
 //   - an output file that is not Go at all (garbage).
+//
 // The packages live in a scratch copy of the repository (KVC_SCRATCH=1; nothing is written into /repo): the loader
 // needs them inside the module. Labelled bounded; never counted as proof.
 func TestVerifBoundedStale(t *testing.T) {
